@@ -13,7 +13,11 @@ import tmpltie
 import common, gen, configs
 
 LEVEL = "proof"
-THEOREMS = ["Mistune.escape_no_specials", "Mistune.safeEntity_no_specials", "Mistune.escapeUrl_attr_safe", "Mistune.quote_ok", "Mistune.escape_eq_flatMap",
+THEOREMS = [# END TO END for the concrete model (plugin-free configurations): every tree Model.parseDoc returns satisfies refinedOk (the hypothesis of render_safe is now a theorem about the
+            # model's own output: attrs hold only numbers / booleans except url, title, info, which are data arguments), hence for EVERY source string the template rendering of the parsed
+            # document with escaping on contains no document-controlled < > "
+            "Mistune.templates_core", "Mistune.Model.parseDoc_refinedOk", "Mistune.Model.parseDoc_render_safe", "Mistune.Model.parseDoc_render_safe_core",
+            "Mistune.escape_no_specials", "Mistune.safeEntity_no_specials", "Mistune.escapeUrl_attr_safe", "Mistune.quote_ok", "Mistune.escape_eq_flatMap",
             "Mistune.templates_ok", "Mistune.templates_none_opaque", "Mistune.evalPieces_safe", "Mistune.evalTmpl_safe", "Mistune.renderTok_safe", "Mistune.render_safe",
             "Mistune.evalTmpl_tagged", "Mistune.renderTok_tagged", "Mistune.render_tagged", "Mistune.templates_tagOk", "Mistune.templates_nodup", "Mistune.tagTable_wf", "Mistune.templateIntArgs_eq",
             # striptags: the regenerated regex IS the expected term (kernel-decided) and on well-tagged strings it equals the tag scanner's projection (proved)
